@@ -4,6 +4,7 @@ import S3V.Model.DtoCopySource
 import S3V.Model.DtoTimestamp
 import S3V.Model.DtoContentType
 import S3V.Model.HttpScalar
+import S3V.Model.FormScalar
 import S3V.Spec.Dto
 /-!
 Driver for component `dto` (C14). Case lines: see `harness/src/bin/h_dto.rs`.
@@ -446,6 +447,55 @@ def judgeHScalar (id ty : String) (t : Bytes) (res : String) : String :=
     else agree id ("hscalar-" ++ ty ++ "-" ++ ((res.splitOn ":").headD ""))
   | _, _ => badline id
 
+/-- the form-field readers (`S3V.FormScalar`, C10): the real `parse_field_value::<T>` / `parse_field_value_timestamp`
+    on a one-field form whose field holds `t` -/
+def judgeFScalar (id ty : String) (t : Bytes) (res : String) : String :=
+  open S3V.FormScalar S3V.Gen in
+  let showV : Option (SVal Unit) → String := fun o => match o with
+    | some (.str s) => "ok:" ++ hx s
+    | some (.bool b) => if b then "ok:true" else "ok:false"
+    | some (.int i) => s!"ok:{i}"
+    | some (.ts x) => tsStr (some x)
+    | some (.mime _) => "ok"
+    | none => "err:InvalidArgument"
+  let showI : Option Int → String := fun o => match o with | some i => s!"ok:{i}" | none => "err:InvalidArgument"
+  if !utf8Valid t then
+    -- a field value is a Rust `String`: the multipart parser refuses the form (C10Form / C09), no scalar reader runs
+    (if res = "noform" then agree id ("fscalar-" ++ ty ++ "-noform") else disagree id "noform" res)
+  else
+  -- specification first (integers, Booleans, strings; timestamps are judged by the C14 cases `ts-parse`)
+  let spec : Option String := match ty with
+    | "i32" => some (showI (specInt (-2147483648) 2147483647 t))
+    | "i64" => some (showI (specInt (-9223372036854775808) 9223372036854775807 t))
+    | "bool" => some (if t == "true".toUTF8.toList then "ok:true" else if t == "false".toUTF8.toList then "ok:false"
+                      else "err:InvalidArgument")
+    | "string" => some ("ok:" ++ hx t)
+    | "enum" => some ("ok:" ++ hx t)
+    | "absent" => some "absent"
+    | _ => none
+  let mime : Bytes → Option Unit := fun _ => none
+  let model : Option String := match ty with
+    | "i32" => some (showV (parseFieldText mime .i32 .none t))
+    | "i64" => some (showV (parseFieldText mime .i64 .none t))
+    | "bool" => some (showV (parseFieldText mime .bool .none t))
+    | "string" => some (showV (parseFieldText mime .string .none t))
+    | "enum" => some (showV (parseFieldText mime .strEnum .none t))
+    | "ts-http" => some (showV (parseFieldText mime .timestamp .httpDate t))
+    | "ts-dt" => some (showV (parseFieldText mime .timestamp .dateTime t))
+    | "absent" => some (match parseFieldValue mime .i64 .none none with | .ok none => "absent" | _ => "?")
+    | _ => none
+  match model with
+  | none => badline id
+  | some m =>
+    match spec with
+    | some sp =>
+      if res ≠ sp then specfail id ("form-scalar-" ++ ty) s!"text={hx t} spec={sp} impl={res}"
+      else if res ≠ m then disagree id m res
+      else agree id ("fscalar-" ++ ty ++ "-" ++ ((res.splitOn ":").headD ""))
+    | none =>
+      if res ≠ m then disagree id m res
+      else agree id ("fscalar-" ++ ty ++ "-" ++ ((res.splitOn ":").headD ""))
+
 end DtoDrv
 
 open DtoDrv in
@@ -485,6 +535,10 @@ def judge (fs : List String) : String :=
     | "hscalar", [ty, t], [res] =>
       match unhx t with
       | some t => judgeHScalar id ty t res
+      | none => badline id
+    | "fscalar", [ty, t], [res] =>
+      match unhx t with
+      | some t => judgeFScalar id ty t res
       | none => badline id
     | "ctype", [s], [res, reparse] =>
       match unhx s with
